@@ -887,6 +887,59 @@ func b2(w *World, r *Report) {
 				}
 			}
 		}
+		// variant: a helper is handed the delegatee and the payload's hash and answers the
+		// stake found by that hash: s = helper(d, h, …) with s = d.FindStake(h)#1 on every
+		// successful return of the helper, and DelStake(h) on the same delegatee
+		if del != nil && find == nil && !ok {
+			_, da := callRecvArgs(del.Common())
+			dr, _ := callRecvArgs(del.Common())
+			if len(da) == 1 && strings.HasSuffix(w.Canon(da[0]), "TrxPayloadUnstaking).TxHash") {
+				for _, c := range CallsIn(eu) {
+					hc, isCall := c.(*ssa.Call)
+					if !isCall || ok {
+						continue
+					}
+					cal := hc.Common().StaticCallee()
+					if cal == nil || !w.InModule(cal) || cal.Blocks == nil || len(cal.Params) != len(hc.Common().Args) || len(w.callsTo(cal, fref{pkgStake, "Delegatee", "FindStake"})) == 0 {
+						continue
+					}
+					env := map[*ssa.Parameter]string{}
+					for j, p := range cal.Params {
+						env[p] = w.Canon(hc.Common().Args[j])
+					}
+					w.inlineEnv = append(w.inlineEnv, env)
+					want := w.Canon(dr) + ".FindStake(" + w.Canon(da[0]) + ")#1"
+					sIdx, nOK, consistent := -1, 0, true
+					for _, b := range cal.Blocks {
+						rt, isR := lastInstr(b).(*ssa.Return)
+						if !isR || b == cal.Recover || w.errState(rt) == triNonNil {
+							continue
+						}
+						nOK++
+						found := -1
+						for j := range rt.Results {
+							if w.Canon(retResult(rt, j)) == want {
+								found = j
+							}
+						}
+						if found < 0 || (sIdx >= 0 && sIdx != found) {
+							consistent = false
+						}
+						sIdx = found
+					}
+					w.inlineEnv = w.inlineEnv[:len(w.inlineEnv)-1]
+					if consistent && nOK > 0 && sIdx >= 0 {
+						var sv ssa.Value = hc
+						if cal.Signature.Results().Len() > 1 {
+							sv = extractOf(hc, sIdx)
+						}
+						if sv != nil {
+							ok, why = sunk(eu, sv, del)
+						}
+					}
+				}
+			}
+		}
 		if del != nil && find != nil {
 			_, da := callRecvArgs(del.Common())
 			_, fa := callRecvArgs(find.Common())
@@ -1124,6 +1177,12 @@ func checkC12(w *World, r *Report) {
 		o.Rule = "O-4"
 		o.Key = "O-4:" + strings.TrimPrefix(o.Key, "V-4:")
 		r.Obs = append(r.Obs, o)
+	}
+	// O-7: a released stake can be refunded only if it reaches the frozen ledger: every
+	// stake removed from a delegatee in controller code is the one handed to the frozen
+	// ledger on the same success path (C11 B-2)
+	if r.importObs(w, func(t *Report) { b2(w, t) }, "B-2", "O-7") < 2 {
+		r.Undecided("O-7", "released-stakes", "the rules on released stakes (C11 B-2) matched fewer than 2 constructs")
 	}
 	r.Floor("O-1", 3, "owner guards")
 	r.Floor("O-2", 3, "refund height assignments")
@@ -1646,6 +1705,14 @@ func checkC13(w *World, r *Report) {
 			o.Key = "W-4:" + strings.TrimPrefix(o.Key, "V-2:")
 			r.Obs = append(r.Obs, o)
 		}
+	}
+	// W-5: the counters of a reward record are separate objects. Issue and Withdraw
+	// update `cumulated` (and, within a block, the per-block counters) in place; if two
+	// fields of one record held the same 256-bit object, an addition to the one and a
+	// subtraction from the other would cancel.
+	nW5 := w.distinctCounterObjects(r, "W-5", pkgStake, "Reward")
+	if nW5 == 0 {
+		r.Undecided("W-5", "constructors", "no function assigns two 256-bit fields of a Reward")
 	}
 	r.Floor("W-1", 5, "issuance condition")
 	r.Floor("W-2", 3, "issuance amount")
@@ -2545,7 +2612,11 @@ func (w *World) fullScanOnEveryAnswer(q *ssa.Function, path string, cb func(*ssa
 	}
 	saved := w.branchMarkers
 	w.branchMarkers = false
+	// helpers of the handler (openers, formatters) are walked in line, so that a
+	// return that forwards a helper's result is known to succeed or fail
+	w.enumDepth, w.expandAll = 3, true
 	ps, complete := w.enumPaths(q, eval, ev, 4000)
+	w.enumDepth, w.expandAll = 0, false
 	w.branchMarkers = saved
 	bad, nOK := "", 0
 	if !complete {
@@ -2576,4 +2647,59 @@ func (w *World) fullScanOnEveryAnswer(q *ssa.Function, path string, cb func(*ssa
 		}
 	}
 	return bad, nOK
+}
+
+// distinctCounterObjects: in every function that assigns two or more *uint256.Int
+// fields of one object of the given type, the assigned values are pairwise
+// different SSA values (no object is shared between two fields at construction or
+// decoding). Returns the number of functions examined.
+func (w *World) distinctCounterObjects(r *Report, rule, pkgRel, typ string) int {
+	n := 0
+	for _, fn := range w.ModuleFuncs() {
+		if fn.Blocks == nil {
+			continue
+		}
+		type asg struct {
+			field string
+			val   ssa.Value
+			in    ssa.Instruction
+		}
+		byBase := map[ssa.Value][]asg{}
+		for _, fs := range w.fieldStores(fn) {
+			if !namedIs(fs.Owner, absPkg(pkgRel), typ) {
+				continue
+			}
+			if !strings.HasSuffix(typeStr(fs.Field.Type()), "uint256.Int") {
+				continue
+			}
+			if c, isC := fs.Val.(*ssa.Const); isC && c.IsNil() {
+				continue
+			}
+			fa, isFA := fs.Addr.(*ssa.FieldAddr)
+			if !isFA {
+				continue
+			}
+			byBase[fa.X] = append(byBase[fa.X], asg{fs.Field.Name(), stripConv(fs.Val), fs.In})
+		}
+		for _, as := range byBase {
+			fields := map[string]bool{}
+			for _, a := range as {
+				fields[a.field] = true
+			}
+			if len(fields) < 2 {
+				continue
+			}
+			n++
+			bad := ""
+			for i := range as {
+				for j := i + 1; j < len(as); j++ {
+					if as[i].field != as[j].field && as[i].val == as[j].val {
+						bad = fmt.Sprintf("%s and %s are assigned the same object (%s)", as[i].field, as[j].field, site(w, as[j].in))
+					}
+				}
+			}
+			r.Check(bad == "", rule, "distinct-objects:"+w.FName(fn), "every 256-bit field assigned here gets an object of its own", "two counters of one record share one 256-bit object, so in-place updates of the one change the other: "+bad, fnSite(w, fn))
+		}
+	}
+	return n
 }
